@@ -3,6 +3,7 @@
 package ice
 
 import (
+	"github.com/RoaringBitmap/roaring"
 	segment "github.com/blugelabs/bluge_segment_api"
 )
 
@@ -10,7 +11,7 @@ func init() {
 	vpRegister("vpH_C19_fault", vpH_C19_fault)
 }
 
-var vpFaultOps = []string{"Dictionary(a)", "Dictionary(_id)", "PostingsList+iterate", "VisitStoredFields", "DocumentValues", "DocsMatchingTerms", "CollectionStats", "PostingsList(location-free term)+iterate with locations"}
+var vpFaultOps = []string{"Dictionary(a)", "Dictionary(_id)", "PostingsList+iterate", "VisitStoredFields", "DocumentValues", "DocsMatchingTerms", "CollectionStats", "PostingsList(location-free term)+iterate with locations", "PostingsList(with deletions)+iterate"}
 
 // vpFaultOp runs read API calls on a file-backed segment.  After each single
 // API call `chk` is told its error and whether its result was empty: a call
@@ -43,7 +44,7 @@ func vpFaultOp(k int, seg *Segment, file *vpFile) {
 				return
 			}
 		}
-	case 2, 7:
+	case 2, 7, 8:
 		fld := "a"
 		if k == 7 {
 			fld = "b" // no term of this field has locations: the location stream is not encoded
@@ -52,7 +53,14 @@ func vpFaultOp(k int, seg *Segment, file *vpFile) {
 		if chk("Dictionary", err, false) {
 			return
 		}
-		pl, err := d.PostingsList([]byte("x"), nil, nil)
+		var except *roaring.Bitmap
+		if k == 8 {
+			// a deletion bitmap (naming a document outside / inside the list): the
+			// iterator walks the full and the live bitmap side by side
+			except = roaring.New()
+			except.Add(uint32(vpChoice("deleted", 2)))
+		}
+		pl, err := d.PostingsList([]byte("x"), except, nil)
 		if chk("PostingsList", err, false) {
 			return
 		}
@@ -60,9 +68,19 @@ func vpFaultOp(k int, seg *Segment, file *vpFile) {
 		if chk("Iterator", err, false) {
 			return
 		}
-		for {
+		failed := 0
+		for calls := 0; calls < 8; calls++ {
 			p, err := it.Next()
-			if chk("PostingsIterator.Next", err, p == nil) || p == nil {
+			if chk("PostingsIterator.Next", err, p == nil) {
+				// the same iterator is used again after an error: it must keep
+				// returning (an error or a result), not panic
+				failed++
+				if failed > 3 {
+					return
+				}
+				continue
+			}
+			if p == nil {
 				return
 			}
 		}
